@@ -1,5 +1,8 @@
 #include <polynomials.h>
 #include "lagrangehalfc_impl.h"
+#ifdef TFHE_VERIF
+#include "../../tfhe_verif_hooks.h"
+#endif
 
 LagrangeHalfCPolynomial_IMPL::LagrangeHalfCPolynomial_IMPL(const int32_t N) {
     assert(N==1024);
@@ -8,7 +11,11 @@ LagrangeHalfCPolynomial_IMPL::LagrangeHalfCPolynomial_IMPL(const int32_t N) {
     // It must not point into the calling thread's thread_local processor: that one is destroyed when the thread exits,
     // while the polynomial (e.g. part of a key, or a workspace handed to another thread) may live on.
     // One processor that lives as long as the process serves all polynomials; transforms keep using the per-thread one.
+#ifdef TFHE_VERIF
+    static FFT_Processor_nayuki *const shared_tables = []() { FFT_Processor_nayuki *q = new FFT_Processor_nayuki(1024); TFHE_VERIF_EVENT("ProcShared", q, 0, 0, 0); return q; }();
+#else
     static FFT_Processor_nayuki *const shared_tables = new FFT_Processor_nayuki(1024);
+#endif
     proc = shared_tables;
 }
 
